@@ -179,6 +179,9 @@ pub fn simple_model(input: &[u8]) -> Option<Vec<(u8, u8, u8)>> {
                     39 => fg = 0,
                     49 => bg = 0,
                     1 | 2 | 3 | 5 | 7 | 8 | 9 | 21..=29 | 53 => {}
+                    // codes without a representation in fg/bg (blink rate, fonts, framed, overline,
+                    // default underline colour, ideogram and super/subscript attributes): no effect
+                    6 | 10..=20 | 50..=52 | 54 | 55 | 59..=65 | 73..=75 => {}
                     4 => {
                         if rest != 0 {
                             return None;
@@ -615,6 +618,21 @@ pub fn execute(t: &Trace, stats: &mut Stats, record: bool) -> Outcome {
             violation = Some(viol(
                 "twin-corrupted",
                 format!("a second, independent console stream fed {:?} in pieces between the calls of the stream under test handed over {} expected {}", lossy(&whole), show(&got), show(&want)),
+            ));
+        }
+    }
+    if violation.is_none() && !client_wrote_after_error {
+        // absolute, model-free: whatever the input, the chunking and the faults, the console is
+        // never handed ESC or another non-whitespace C0 control as text (the differential oracle
+        // above cannot see a leak that the one-shot extractor shares).  DEL is left out: the full
+        // parser prints it in the ground state, which is the extractor's one-shot meaning (C01/C02
+        // territory), not something this stream adds.
+        stats.probe("no_control_byte_invariant_evaluated");
+        let st = h.st();
+        if let Some((at, b)) = st.accepted.iter().copied().enumerate().find(|(_, b)| *b < 0x20 && !matches!(*b, 9 | 10 | 12 | 13)) {
+            violation = Some(viol(
+                "leak-escape",
+                format!("byte {b:#04x} was handed to the console as text at text offset {at}: {:?} (input {:?})", lossy(&st.accepted), lossy(input)),
             ));
         }
     }
